@@ -430,7 +430,7 @@ def extract_fn(repo, d, template_text):
         if kind == "enumerate-iter":
             # Desugaring of `for (I, X) in E.iter().enumerate() { BODY }` over a slice / Vec `E` into
             # `for I in IT: 0..E.len() { let X = &E[I]; BODY }` (trusted rule: the adapter yields (i, &E[i]) for i = 0..len in
-            # order). Checked mechanically: the header shapes correspond and E does not occur in BODY.
+            # order). Checked mechanically: the header shapes correspond.
             mo = re.match(r"^for\s*\(\s*(\w+)\s*,\s*(\w+)\s*\)\s+in\s+(.+?)\s*\.iter\(\)\s*\.enumerate\(\)$", rustscan.norm_ws(old))
             mn = re.match(r"^for\s+(\w+)\s+in\s+(\w+)\s*:\s*0\s*\.\.\s*(.+?)\s*\.len\(\)$", rustscan.norm_ws(new))
             if not mo or not mn or mo.group(1) != mn.group(1) or rustscan.norm_ws(mo.group(3)) != rustscan.norm_ws(mn.group(3)):
@@ -444,8 +444,7 @@ def extract_fn(repo, d, template_text):
             bo = whole.index("{", ms[0].end())
             bc = rustscan.match_close(whole, mask, bo)
             lbody = whole[bo:bc + 1]
-            if re.search(re.escape(coll).replace(r"\ ", r"\s*"), lbody):
-                raise ExtractError("enumerate-iter: the collection is used inside the loop body")
+            # (E may be READ in BODY: the shared borrow held by the iterator already forbids mutating it there)
             whole = whole[:ms[0].start()] + new + whole[ms[0].end():bo] + "{\n                let " + var + " = &" + coll + "[" + idx + "];" + lbody[1:] + whole[bc + 1:]
             sig, body = _resplit(whole)
             tr.append({"kind": kind, "old": rustscan.norm_ws(old), "new": rustscan.norm_ws(new), "element": f"&{coll}[{idx}]"})
@@ -683,6 +682,12 @@ def extract_type(repo, d):
         tr.append({"kind": "vis", "what": "item and all fields made pub (single-file module)"})
     if keep:
         text = "#[derive(" + ", ".join(keep) + ")]\n" + text
+    if d.get("pre"):
+        # Verus-only attributes (e.g. #[verifier::reject_recursive_types(T)]) in front of the copied definition
+        if not re.fullmatch(r"(\s*#\[verifier::[a-z_]+\([\w, ]*\)\])+\s*", d["pre"]):
+            raise ExtractError("TYPE pre= may only hold #[verifier::...] attributes")
+        text = d["pre"].strip() + "\n" + text
+        tr.append({"kind": "verus-attr", "added": d["pre"].strip()})
     rec = {"file": d["file"], "type": d["name"], "sha256": common.sha256_text(it.text), "transformations": tr}
     return text + "\n", rec, derives
 
